@@ -247,7 +247,9 @@ class _CommonFile:
         records = self._records
         existing = key in records
         records[key] = value
-        if not existing:
+        if not existing and (_RECORD, key) not in self._source:
+            # NOTE: a deleted record keeps its slot in _source (see _iter_lines),
+            #       so re-adding the key must not append a second one.
             self._source.append((_RECORD, key))
         return existing
 
